@@ -125,6 +125,9 @@ func c01total(id string, s *Scn, optName string) core.Outcome {
 		p, err = s.LoadAt(root)
 		os.RemoveAll(root)
 	}
+	if os.Getenv("C01_DEBUG") != "" {
+		fmt.Fprintf(os.Stderr, "C01DBG %s: files=%v err=%v\n", id, s.Files, err)
+	}
 	cls := "ok"
 	if pe, ok := err.(*core.PanicError); ok {
 		oc := "default"
@@ -248,7 +251,7 @@ func (c01) Run(c *core.Ctx) {
 						if p[0] == "include" {
 							return core.Outcome{Class: "na", Trivial: true}
 						}
-						d := c01renamed(c01docAt(p, k.val))
+						d := c01docAt(p, k.val) // own names: a clash of names would end the import before the later sections
 						d["include"] = []any{"./rich.yaml"}
 						files["compose.yaml"] = mapToYAML(d)
 						files["rich.yaml"] = corpusRich
